@@ -20,6 +20,9 @@ directed = st.one_of(
     st.tuples(st.just(corrupt.CLASSES.index('gd')), st.integers(0, 500), st.sampled_from(_ptr_idx(corrupt.GD_FIELDS)), st.sampled_from(_DIR_KINDS), _VALS, st.just(True)),
     st.tuples(st.sampled_from(_PTR_CLASSES), st.integers(0, 500), st.integers(0, 200), st.sampled_from(_DIR_KINDS), _VALS, st.just(True)),
     # unreachable-but-locally-consistent structures: a directory cut off from its parent, alone or in a loop with one of its subdirectories
+    # a directory that loses its first (often only) block
+    st.tuples(st.just(corrupt.CLASSES.index('dirmap')), st.integers(0, 500), st.integers(0, 6), st.sampled_from(_DIR_KINDS), _VALS, st.just(True)),
+    st.tuples(st.just(corrupt.CLASSES.index('eadup')), st.integers(0, 500), st.integers(0, 1), st.just(0), st.integers(0, 500), st.just(True)),
     st.tuples(st.just(corrupt.CLASSES.index('dirloop')), st.integers(0, 500), st.integers(0, 2), st.just(0), st.integers(0, 50), st.just(True)))
 
 def strategy(env):
